@@ -231,7 +231,12 @@ fn run_op(sh: &Shared, env: &crate::env::Env, kind: &str, idx: usize) -> (String
             let t = &sh.types[idx];
             let w8 = Final::two_two_n(8).unwrap();
             let w5 = Final::two_two_n(5).unwrap();
-            format!("{} {} {} {}", t.tmr(), t.bit_width(), *w8 == *sh.types[sh.types.len() - 2], *w5 == *sh.types[sh.types.len() - 1])
+            // all three thread-local tables of src/types/precomputed.rs: powers of two, byte buffers, the hash context
+            let ctx = Final::ctx8();
+            let buf = Final::buffer8_two_n_plus_one(idx % 9).map(|b| format!("{} {}", b.tmr(), b.bit_width())).unwrap_or_else(|e| format!("err {}", e));
+            let pw = Final::two_two_n(idx % 12).map(|b| format!("{}", b.tmr())).unwrap_or_else(|e| format!("err {}", e));
+            format!("{} {} {} {} {} {} {} {}", t.tmr(), t.bit_width(), *w8 == *sh.types[sh.types.len() - 2], *w5 == *sh.types[sh.types.len() - 1],
+                    ctx.tmr(), ctx.bit_width(), buf, pw)
         }
     };
     (dig(&res), ids)
